@@ -5,10 +5,11 @@ Require Import UV.C01.Model UV.Gen.Stubs UV.C01.MachineProofs UV.C01.StubTheorem
 Local Open Scope Z_scope.
 
 (* ---- (i) the assembly stubs, as generated from arch/x86_64/*.S of the current tree ----
-   [stub_guarantee W regs xmm mem zf ext spec prog] (Machine.v) says about the concrete run of prog
+   [stub_guarantee W regs xmm up mem zf ext spec prog] (Machine.v) says about the concrete run of prog
    from ANY register file / xmm file / memory / ZF in ANY world W (= any behaviour of the hooks the
    contract of [c_call] allows): no fault, control leaves to [s_target], every register of [s_pres]
-   and xmm0-7 (argument/return registers) hold their entry values, rsp = rsp0 + s_rsp, and every memory
+   and every architecturally visible bit of vector registers 0-7 (xmm / ymm / zmm: argument and return registers;
+   bits 128.. are the words [up]) hold their entry values, rsp = rsp0 + s_rsp, and every memory
    cell at or above rsp0 + s_memfrom except the hijacked slot is unchanged.
    The contract for xmm registers is [c_call_xmm]: the C wrappers listed in hook_wrappers (generated
    from the C text) run the hook body between the generated save/restore pair of ArchCtx.v, so the
@@ -23,64 +24,64 @@ Proof. exact hook_wrappers_ok. Qed.
 Print Assumptions C01_hook_wrappers_bracketed.
 
 (* the abstract executor is sound for every program, every 8-byte aligned entry stack pointer *)
-Theorem C01_stub_executor_sound : forall W regs xmm mem zf ext cond sp prog,
+Theorem C01_stub_executor_sound : forall W regs xmm up mem zf ext cond sp prog,
   check_both ext cond sp prog = true ->
   regs RSP mod 8 = 0 ->
   (forall e, ext = Some e -> regs RSP + 8 <= den W regs xmm mem e) ->
   (forall v k b, cond = Some (v, k, b) -> (den W regs xmm mem v =? k) = b) ->
-  stub_guarantee W regs xmm mem zf ext sp prog.
+  stub_guarantee W regs xmm up mem zf ext sp prog.
 Proof. exact both_alignments. Qed.
 Print Assumptions C01_stub_executor_sound.
 
 (* entry stubs: rdi rsi rdx rcx r8 r9, rax (variadic %al), r10, r11 and all callee-saved registers
    preserved; control returns into the traced function; only the parent's return slot may change *)
-Theorem C01_entry_stub_preserves_mcount : forall W regs xmm mem zf,
+Theorem C01_entry_stub_preserves_mcount : forall W regs xmm up mem zf,
   regs RSP mod 8 = 0 -> regs RSP <= regs RBP ->
-  stub_guarantee W regs xmm mem zf (Some (VOff RBP 8))
+  stub_guarantee W regs xmm up mem zf (Some (VOff RBP 8))
     {| s_pres := [RAX; RCX; RDX; RSI; RDI; R8; R9; R10; R11; RBX; RBP; R12; R13; R14; R15];
        s_rsp := 8; s_target := VInitMem 0; s_memfrom := 8; s_allowed := [] |} stub_mcount.
 Proof. exact mcount_ok. Qed.
 Print Assumptions C01_entry_stub_preserves_mcount.
 
-Theorem C01_entry_stub_preserves_fentry : forall W regs xmm mem zf,
+Theorem C01_entry_stub_preserves_fentry : forall W regs xmm up mem zf,
   regs RSP mod 8 = 0 ->
-  stub_guarantee W regs xmm mem zf None
+  stub_guarantee W regs xmm up mem zf None
     {| s_pres := [RAX; RCX; RDX; RSI; RDI; R8; R9; R10; R11; RBX; RBP; R12; R13; R14; R15];
        s_rsp := 8; s_target := VInitMem 0; s_memfrom := 8; s_allowed := [8] |} stub___fentry__.
 Proof. exact fentry_ok. Qed.
 Print Assumptions C01_entry_stub_preserves_fentry.
 
 (* dynamic entry: control goes to the address mcount_find_code returned (second hook call) *)
-Theorem C01_entry_stub_preserves_dentry : forall W regs xmm mem zf,
+Theorem C01_entry_stub_preserves_dentry : forall W regs xmm up mem zf,
   regs RSP mod 8 = 0 ->
-  stub_guarantee W regs xmm mem zf None
+  stub_guarantee W regs xmm up mem zf None
     {| s_pres := [RAX; RCX; RDX; RSI; RDI; R8; R9; R10; R11; RBX; RBP; R12; R13; R14; R15];
        s_rsp := 8; s_target := VHav 1 RAX; s_memfrom := 8; s_allowed := [8] |} stub___dentry__.
 Proof. exact dentry_ok. Qed.
 Print Assumptions C01_entry_stub_preserves_dentry.
 
 (* XRay entry sled: plain ABI (r10 is written by the sled itself, r11 is scratch) *)
-Theorem C01_entry_stub_preserves_xray : forall W regs xmm mem zf,
+Theorem C01_entry_stub_preserves_xray : forall W regs xmm up mem zf,
   regs RSP mod 8 = 0 ->
-  stub_guarantee W regs xmm mem zf None
+  stub_guarantee W regs xmm up mem zf None
     {| s_pres := [RAX; RCX; RDX; RSI; RDI; R8; R9; RBX; RBP; R12; R13; R14; R15];
        s_rsp := 8; s_target := VInitMem 0; s_memfrom := 8; s_allowed := [] |} stub___xray_entry.
 Proof. exact xray_entry_ok. Qed.
 Print Assumptions C01_entry_stub_preserves_xray.
 
 (* PLT hook, both outcomes of plthook_entry *)
-Theorem C01_plt_hooker_to_resolver : forall W regs xmm mem zf,
+Theorem C01_plt_hooker_to_resolver : forall W regs xmm up mem zf,
   regs RSP mod 8 = 0 -> w_regs W 0 RAX = 0 ->
-  stub_guarantee W regs xmm mem zf None
+  stub_guarantee W regs xmm up mem zf None
     {| s_pres := [RAX; RCX; RDX; RSI; RDI; R8; R9; RBX; RBP; R12; R13; R14; R15];
        s_rsp := 0; s_target := VGlob "plthook_resolver_addr" 1; s_memfrom := 0; s_allowed := [16] |}
     stub_plt_hooker.
 Proof. exact plt_hooker_resolve_ok. Qed.
 Print Assumptions C01_plt_hooker_to_resolver.
 
-Theorem C01_plt_hooker_to_resolved_function : forall W regs xmm mem zf,
+Theorem C01_plt_hooker_to_resolved_function : forall W regs xmm up mem zf,
   regs RSP mod 8 = 0 -> w_regs W 0 RAX <> 0 ->
-  stub_guarantee W regs xmm mem zf None
+  stub_guarantee W regs xmm up mem zf None
     {| s_pres := [RAX; RCX; RDX; RSI; RDI; R8; R9; RBX; RBP; R12; R13; R14; R15];
        s_rsp := 16; s_target := VHav 0 RAX; s_memfrom := 16; s_allowed := [16] |}
     stub_plt_hooker.
@@ -90,17 +91,17 @@ Print Assumptions C01_plt_hooker_to_resolved_function.
 (* return trampolines of instrumented functions: rax, rdx, xmm0/xmm1 (with xmm2-7) AND
    all other caller-saved registers (-fipa-ra) preserved; control goes to the address the exit hook
    handed back; nothing at or above the entry rsp is touched *)
-Theorem C01_return_stub_preserves_mcount_return : forall W regs xmm mem zf,
+Theorem C01_return_stub_preserves_mcount_return : forall W regs xmm up mem zf,
   regs RSP mod 8 = 0 ->
-  stub_guarantee W regs xmm mem zf None
+  stub_guarantee W regs xmm up mem zf None
     {| s_pres := [RAX; RCX; RDX; RSI; RDI; R8; R9; R10; R11; RBX; RBP; R12; R13; R14; R15];
        s_rsp := 0; s_target := VHav 0 RAX; s_memfrom := 0; s_allowed := [] |} stub_mcount_return.
 Proof. exact mcount_return_ok. Qed.
 Print Assumptions C01_return_stub_preserves_mcount_return.
 
-Theorem C01_return_stub_preserves_dynamic_return : forall W regs xmm mem zf,
+Theorem C01_return_stub_preserves_dynamic_return : forall W regs xmm up mem zf,
   regs RSP mod 8 = 0 ->
-  stub_guarantee W regs xmm mem zf None
+  stub_guarantee W regs xmm up mem zf None
     {| s_pres := [RAX; RCX; RDX; RSI; RDI; R8; R9; R10; R11; RBX; RBP; R12; R13; R14; R15];
        s_rsp := 0; s_target := VHav 0 RAX; s_memfrom := 0; s_allowed := [] |} stub_dynamic_return.
 Proof. exact dynamic_return_ok. Qed.
@@ -108,17 +109,17 @@ Print Assumptions C01_return_stub_preserves_dynamic_return.
 
 (* return from an external (PLT) callee / XRay exit sled: plain ABI - rax, rdx, xmm0-7, rdi and the
    callee-saved registers *)
-Theorem C01_return_stub_preserves_plthook_return : forall W regs xmm mem zf,
+Theorem C01_return_stub_preserves_plthook_return : forall W regs xmm up mem zf,
   regs RSP mod 8 = 0 ->
-  stub_guarantee W regs xmm mem zf None
+  stub_guarantee W regs xmm up mem zf None
     {| s_pres := [RAX; RDX; RDI; RBX; RBP; R12; R13; R14; R15];
        s_rsp := 0; s_target := VHav 0 RAX; s_memfrom := 0; s_allowed := [] |} stub_plthook_return.
 Proof. exact plthook_return_ok. Qed.
 Print Assumptions C01_return_stub_preserves_plthook_return.
 
-Theorem C01_return_stub_preserves_xray_exit : forall W regs xmm mem zf,
+Theorem C01_return_stub_preserves_xray_exit : forall W regs xmm up mem zf,
   regs RSP mod 8 = 0 ->
-  stub_guarantee W regs xmm mem zf None
+  stub_guarantee W regs xmm up mem zf None
     {| s_pres := [RAX; RDX; RDI; RBX; RBP; R12; R13; R14; R15];
        s_rsp := 8; s_target := VInitMem 0; s_memfrom := 0; s_allowed := [] |} stub___xray_exit.
 Proof. exact xray_exit_ok. Qed.
@@ -170,6 +171,19 @@ Theorem C01_program_returns_recover : forall c, only_pg c = true ->
   exists s' outs, run_ops st0 (full 1%nat c) = (s', outs) /\ targets outs = map Some (native c) /\ rs s' = [].
 Proof. exact program_returns_recover. Qed.
 Print Assumptions C01_program_returns_recover.
+
+(* mcount_rstack_rehook must write the trampoline of the NEWEST frame of a tail-call chain into the shared slot: the
+   newest-first walk of the code before fix C01-9 left plthook_return under a -pg frame and killed the traced program *)
+Theorem C01_rehook_newest_first_refuted :
+  let fs := [mkF 1%nat (Tramp KP) KM false; mkF 1%nat (Real 100) KP false] in
+  let m := fun _ : nat => Real 0 in
+  rehook_all_legacy fs m 1%nat = Tramp KP /\
+  ret_through 3%nat 1%nat (mkSt (rehook_all_legacy fs m) fs) 0%nat = None /\
+  rehook_all fs m 1%nat = Tramp KM /\
+  ret_through 3%nat 1%nat (mkSt (rehook_all fs m) fs) 0%nat
+  = Some (mkSt (upd (upd (rehook_all fs m) 1%nat (Tramp KP)) 1%nat (Real 100)) [], 2%nat, Real 100).
+Proof. exact rehook_newest_first_refuted. Qed.
+Print Assumptions C01_rehook_newest_first_refuted.
 
 (* tracing is finished (finish trigger / signal in another thread) while frames are open: the exit hook
    that notices it - [exit_stop]: bookkeeping, mtd_dtor restores every slot and drops the shadow stack,
@@ -226,6 +240,16 @@ Theorem C01_arch_context_roundtrip : forall (level : nat) (x : vfile) (c0 : Z ->
   arch_roundtrip_now level x c0 clobber r i = x r i.
 Proof. exact arch_context_roundtrip. Qed.
 Print Assumptions C01_arch_context_roundtrip.
+
+(* the SSE control/status register MXCSR (rounding mode, sticky exception flags, masks) is saved first and restored
+   last by the generated pair: floating-point work of a script or of libc inside a hook is invisible to the traced program *)
+Theorem C01_mxcsr_preserved : forall csr clobber : Z, mxcsr_now csr clobber = csr.
+Proof. exact mxcsr_preserved. Qed.
+Print Assumptions C01_mxcsr_preserved.
+
+Theorem C01_mxcsr_legacy_refuted : exists csr clobber, mxcsr_roundtrip false csr clobber <> csr.
+Proof. exact mxcsr_legacy_refuted. Qed.
+Print Assumptions C01_mxcsr_legacy_refuted.
 
 (* the code before fix C01-6 (AVX pair on a machine with live zmm state) lost bits 256-511 *)
 Theorem C01_arch_context_avx_only_refuted :
